@@ -72,6 +72,7 @@ namespace via
       size_t        length_ { 0u };          ///< the length of the header line in bytes
       size_t        ws_count_ { 0u };        ///< the current whitespace count
       Header        state_ { Header::NAME }; ///< the current parsing state
+      bool          fail_ { false };         ///< true if the line failed validation
 
       /// Parse an individual character.
       /// @param c the current character to be parsed.
@@ -155,6 +156,7 @@ namespace via
         length_ = 0u;
         ws_count_ = 0u;
         state_ = Header::NAME;
+        fail_ = false;
       }
 
       /// swap member variables with another field_line.
@@ -166,6 +168,7 @@ namespace via
         std::swap(length_, other.length_);
         std::swap(ws_count_, other.ws_count_);
         std::swap(state_, other.state_);
+        std::swap(fail_, other.fail_);
       }
 
       /// Parse an individual http header field and extract the field name
@@ -189,7 +192,10 @@ namespace via
         {
           char c(static_cast<char>(*iter++));
           if (!parse_char(c))
+          {
+            fail_ = true;
             return false;
+          }
           else if (Header::VALID == state_)
           { // determine whether the next line is a continuation header
             if ((iter != end) && std::isblank(*iter))
@@ -212,6 +218,12 @@ namespace via
       /// @return the field value in the same case that it was received in.
       const std::string& value() const noexcept
       { return value_; }
+
+      /// Accessor for the fail flag.
+      /// @return true if the line failed validation, i.e. it is not just
+      /// incomplete.
+      bool fail() const noexcept
+      { return fail_; }
 
       /// Whether part (or all) of a header line has been read.
       /// @return true if at least one character of the line has been parsed.
@@ -432,6 +444,12 @@ namespace via
       /// @return the valid flag.
       bool valid() const noexcept
       { return valid_; }
+
+      /// Accessor for the fail flag.
+      /// @return true if a header line failed validation, i.e. the headers
+      /// are not just incomplete.
+      bool fail() const noexcept
+      { return field_.fail(); }
 
       /// Accessor for the header fields.
       /// @return headers as a map
